@@ -78,6 +78,268 @@ func (p *Prog) switchTables(fn *ssa.Function) []switchTable {
 		}
 		return true
 	})
+	out = append(out, p.ifChainTables(decl.Body, info)...)
+	out = append(out, p.lookupTables(decl.Body, pk)...)
+	// a clause that delegates to a helper of the same package (`return helper(x)` / `v, err = helper(x)`):
+	// what the helper builds counts as built by the clause (one level)
+	for ti := range out {
+		for ei := range out[ti].entries {
+			e := &out[ti].entries[ei]
+			var extra []ast.Stmt
+			// only a clause that builds nothing itself (pure delegation)
+			own := len(resultConsts(info, *e)) > 0
+			for _, st := range e.body {
+				ast.Inspect(st, func(n ast.Node) bool {
+					if _, isCL := n.(*ast.CompositeLit); isCL {
+						own = true
+					}
+					return true
+				})
+			}
+			if own {
+				continue
+			}
+			for _, rx := range e.results {
+				call, isCall := rx.(*ast.CallExpr)
+				if !isCall {
+					continue
+				}
+				var id *ast.Ident
+				switch f := call.Fun.(type) {
+				case *ast.Ident:
+					id = f
+				case *ast.SelectorExpr:
+					id = f.Sel
+				}
+				if id == nil {
+					continue
+				}
+				fo, isFn := info.Uses[id].(*types.Func)
+				if !isFn || fo.Pkg() != pk.Types {
+					continue
+				}
+				if hf := p.byObj[fo]; hf != nil && hf != fn {
+					if hd := p.funcDecl(hf); hd != nil && hd.Body != nil {
+						extra = append(extra, hd.Body.List...)
+					}
+				}
+			}
+			if len(extra) > 0 {
+				h := caseEntry{body: extra}
+				fillBody(&h)
+				e.body = append(append([]ast.Stmt{}, e.body...), extra...)
+				e.results = append(e.results, h.results...)
+				e.literals = append(e.literals, h.literals...)
+			}
+		}
+	}
+	return out
+}
+
+// ---- tables written without a switch statement
+
+// ifCond recognises the condition of one link of an if chain: `tag == C`, `C == tag`, a disjunction of such
+// on one tag, or the comma-ok type assertion `v, ok := tag.(T); ok`. It returns the tag text and the entry.
+func ifCond(info *types.Info, st *ast.IfStmt) (tag string, e caseEntry, isType, ok bool) {
+	e = caseEntry{pos: st.Pos(), body: st.Body.List}
+	// comma-ok type assertion
+	if as, isAs := st.Init.(*ast.AssignStmt); isAs && len(as.Lhs) == 2 && len(as.Rhs) == 1 {
+		if ta, isTA := as.Rhs[0].(*ast.TypeAssertExpr); isTA && ta.Type != nil {
+			if id, isId := st.Cond.(*ast.Ident); isId {
+				if okId, isOk := as.Lhs[1].(*ast.Ident); isOk && info.ObjectOf(okId) == info.ObjectOf(id) {
+					if tv, has := info.Types[ta.Type]; has && tv.IsType() {
+						e.typs = []types.Type{tv.Type}
+						return types.ExprString(ta.X), e, true, true
+					}
+				}
+			}
+		}
+		return "", e, false, false
+	}
+	var collect func(x ast.Expr) bool
+	collect = func(x ast.Expr) bool {
+		switch b := x.(type) {
+		case *ast.ParenExpr:
+			return collect(b.X)
+		case *ast.BinaryExpr:
+			switch b.Op {
+			case token.LOR:
+				return collect(b.X) && collect(b.Y)
+			case token.EQL:
+				c, other := constOf(info, b.Y), b.X
+				if c == nil {
+					c, other = constOf(info, b.X), b.Y
+				}
+				if c == nil {
+					return false
+				}
+				t := types.ExprString(other)
+				if tag != "" && tag != t {
+					return false
+				}
+				tag = t
+				e.consts = append(e.consts, c)
+				return true
+			}
+		}
+		return false
+	}
+	if st.Init != nil {
+		// `if x := f(); x == C`: a temporary for the tag
+		if as, isAs := st.Init.(*ast.AssignStmt); !isAs || as.Tok != token.DEFINE || len(as.Lhs) != 1 {
+			return "", e, false, false
+		}
+	}
+	if !collect(st.Cond) {
+		return "", e, false, false
+	}
+	return tag, e, false, true
+}
+
+func endsInReturn(stmts []ast.Stmt) bool {
+	if len(stmts) == 0 {
+		return false
+	}
+	_, ok := stmts[len(stmts)-1].(*ast.ReturnStmt)
+	return ok
+}
+
+func (p *Prog) ifChainTables(body *ast.BlockStmt, info *types.Info) []switchTable {
+	var out []switchTable
+	seenElse := map[*ast.IfStmt]bool{}
+	ast.Inspect(body, func(n ast.Node) bool {
+		switch x := n.(type) {
+		case *ast.IfStmt:
+			if seenElse[x] {
+				return true
+			}
+			// if / else if / else chain
+			var t switchTable
+			tag := ""
+			cur := x
+			n := 0
+			for cur != nil {
+				tg, e, isT, ok := ifCond(info, cur)
+				if !ok || (tag != "" && tg != tag) {
+					break
+				}
+				tag = tg
+				t.isType = isT
+				fillBody(&e)
+				t.entries = append(t.entries, e)
+				n++
+				switch el := cur.Else.(type) {
+				case *ast.IfStmt:
+					seenElse[el] = true
+					cur = el
+					continue
+				case *ast.BlockStmt:
+					d := caseEntry{pos: el.Pos(), isDeflt: true, body: el.List}
+					fillBody(&d)
+					t.entries = append(t.entries, d)
+				}
+				cur = nil
+			}
+			if n >= 2 {
+				t.pos = x.Pos()
+				out = append(out, t)
+			}
+		case *ast.BlockStmt:
+			// run of sibling ifs on one tag, each leaving the function (early-return style)
+			i := 0
+			for i < len(x.List) {
+				var t switchTable
+				tag := ""
+				j := i
+				for j < len(x.List) {
+					st, isIf := x.List[j].(*ast.IfStmt)
+					if !isIf || st.Else != nil {
+						break
+					}
+					tg, e, isT, ok := ifCond(info, st)
+					if !ok || (tag != "" && tg != tag) || !endsInReturn(st.Body.List) {
+						break
+					}
+					tag = tg
+					t.isType = isT
+					fillBody(&e)
+					t.entries = append(t.entries, e)
+					j++
+				}
+				if j-i >= 2 {
+					t.pos = x.List[i].Pos()
+					if j < len(x.List) {
+						d := caseEntry{pos: x.List[j].Pos(), isDeflt: true, body: x.List[j:]}
+						fillBody(&d)
+						t.entries = append(t.entries, d)
+					}
+					out = append(out, t)
+					i = j
+				} else {
+					i++
+				}
+			}
+		}
+		return true
+	})
+	return out
+}
+
+// lookupTables: `v, ok := table[x]` / `table[x]` where table is a package-level map or array literal keyed by named constants.
+func (p *Prog) lookupTables(body *ast.BlockStmt, pk *packages.Package) []switchTable {
+	info := pk.TypesInfo
+	var out []switchTable
+	done := map[types.Object]bool{}
+	ast.Inspect(body, func(n ast.Node) bool {
+		ix, ok := n.(*ast.IndexExpr)
+		if !ok {
+			return true
+		}
+		id, isId := ix.X.(*ast.Ident)
+		if !isId {
+			return true
+		}
+		obj, isVar := info.Uses[id].(*types.Var)
+		if !isVar || obj.Parent() != pk.Types.Scope() || done[obj] {
+			return true
+		}
+		done[obj] = true
+		// its declaration
+		for _, f := range pk.Syntax {
+			ast.Inspect(f, func(m ast.Node) bool {
+				vs, isVS := m.(*ast.ValueSpec)
+				if !isVS {
+					return true
+				}
+				for i, nm := range vs.Names {
+					if info.Defs[nm] != obj || i >= len(vs.Values) {
+						continue
+					}
+					cl, isCL := vs.Values[i].(*ast.CompositeLit)
+					if !isCL {
+						continue
+					}
+					t := switchTable{pos: ix.Pos(), tag: ix.Index}
+					for _, el := range cl.Elts {
+						kv, isKV := el.(*ast.KeyValueExpr)
+						if !isKV {
+							continue
+						}
+						c := constOf(info, kv.Key)
+						if c == nil {
+							continue
+						}
+						t.entries = append(t.entries, caseEntry{pos: kv.Pos(), consts: []*types.Const{c}, results: []ast.Expr{kv.Value}, body: []ast.Stmt{&ast.ExprStmt{X: kv.Value}}})
+					}
+					if len(t.entries) >= 2 {
+						out = append(out, t)
+					}
+				}
+				return true
+			})
+		}
+		return true
+	})
 	return out
 }
 
